@@ -109,12 +109,19 @@ def main(prop, tier, replay, only):
             ok, rpath, note = (None, None, "playback disabled for this harness")
             if h.playback:
                 ok, rpath, note = kanirun.playback(h, prop)
+            if not ok and getattr(h, "native", None):
+                ok2, rpath2, note2 = h.native({}, new[0], prop)
+                if ok2:
+                    ok, rpath, note = ok2, rpath2, note2
+                else:
+                    note = "%s; native replay: %s" % (note, note2)
+                    ok = False
             if rpath is None:
                 rpath = write_trace_replay(prop, h, r, new)
             for fnd in new:
                 fnd.replay, fnd.reproduced = rpath, ok
                 fnd.detail["replay_note"] = note
-            if ok or (ok is None and not h.playback):
+            if ok:
                 violations.extend(new)
             else:
                 inconclusive.append("%s: %d failed propert(ies) but the counterexample did not reproduce natively (%s): %s"
